@@ -354,6 +354,18 @@ def run():
             finish(o, "hardlink-transform" if stg == "group_transformed" else None)
     guarded("rehash key / id-groups", o5)
 
+    # ------------------------------------------------------------------ O4 cache (the statement holds "with or without the hash cache")
+    def o4():
+        from obligations import C12
+        C12.add_obligations(rep, ctx)
+    guarded("hash cache", o4)
+
+    # ------------------------------------------------------------------ O6 transform temp files ($IN copies of different files must not collide)
+    def o6():
+        from obligations import C07
+        C07.add_transform_obligations(rep, ctx)
+    guarded("transform temp files", o6)
+
     # ------------------------------------------------------------------ O1 Kani (stream consumption)
     try:
         from obligations import C01_kani
@@ -377,9 +389,8 @@ def finish(o, scenario):
 
 def replay(o, scenario):
     """Native confirmation through the CLI."""
-    if scenario is None:
-        o.cex["native_replay"] = "no native scenario for this obligation"
-        return
+    if o.cex is None:
+        o.cex = {}
     try:
         binary = native.build_binary(_CTX["src"])
     except Inconclusive as e:
@@ -421,13 +432,16 @@ def replay(o, scenario):
             else:
                 o.verdict, o.detail = "inconclusive", "counterexample did not reproduce through the CLI"
         else:
-            rc = size_straddle_replay(binary, root, env)
-            o.cex["native_replay"] = rc
-            if rc.get("bad"):
+            import sys
+            sys.path.insert(0, os.path.join(os.path.dirname(os.path.dirname(os.path.abspath(__file__))), "replay"))
+            import batteries
+            devs = batteries.c01_battery(binary)
+            o.cex["native_replay"] = devs[:5]
+            if devs:
                 o.stats["traces_validated"] = 1
-                o.detail += "; replayed natively: %s" % rc["bad"][:2]
+                o.detail += "; replayed natively (content battery: byte comparison of every reported group): %s" % devs[:2]
             else:
-                o.verdict, o.detail = "inconclusive", "counterexample did not reproduce through the CLI (size-straddling tree)"
+                o.verdict, o.detail = "inconclusive", "counterexample did not reproduce through the CLI (content battery: sizes around every threshold x configurations, transforms, hard links)"
     finally:
         shutil.rmtree(d, ignore_errors=True)
 
